@@ -13,7 +13,7 @@ out of an expanded argument (with larger hide sets) do no harm as long as they n
 (`OnlyDisabled`, the side condition of the `invoke` rule).
 -/
 namespace RsslVerif.Lemmas.MacroTameSpec
-open RsslVerif.Model.Macro RsslVerif.Spec.CPreMacro
+open RsslVerif.Model.Macro RsslVerif.Model.MacroTame RsslVerif.Spec.CPreMacro
 open RsslVerif.Lemmas.MacroTerm RsslVerif.Lemmas.MacroSubst RsslVerif.Lemmas.MacroHang RsslVerif.Lemmas.MacroTame
 open RsslVerif.Lemmas.SpecExpand RsslVerif.Lemmas.SpecInert
 
@@ -110,19 +110,6 @@ theorem mem_disabledNames {env : List Entry} {x : String} :
     x ∈ disabledNames env ↔ ∃ e ∈ env, e.disabled = true ∧ e.m.name = x := by
   simp [disabledNames, and_assoc]
 
-theorem disable_getElem? (env : List Entry) (mi j : Nat) :
-    (disable env mi)[j]? = (env[j]?).map (fun e => if j = mi then { e with disabled := true } else e) := by
-  unfold disable
-  rw [List.getElem?_modify]
-  cases env[j]? with
-  | none => rfl
-  | some e =>
-    simp only [Option.map_some]
-    by_cases h : mi = j
-    · subst h; simp
-    · have : ¬ j = mi := fun hh => h hh.symm
-      simp [h, this]
-
 theorem specTable_disable (env : List Entry) (mi : Nat) : specTable (disable env mi) = specTable env := by
   apply List.ext_getElem?
   intro j
@@ -130,20 +117,6 @@ theorem specTable_disable (env : List Entry) (mi : Nat) : specTable (disable env
   cases env[j]? with
   | none => rfl
   | some e => simp only [Option.map_some]; split <;> rfl
-
-theorem mem_disable {env : List Entry} {mi : Nat} {e' : Entry} (h : e' ∈ disable env mi) :
-    ∃ e ∈ env, e'.m = e.m ∧ (e.disabled = true → e'.disabled = true) := by
-  obtain ⟨j, hj⟩ := List.mem_iff_getElem?.mp h
-  rw [disable_getElem?] at hj
-  cases hget : env[j]? with
-  | none => simp [hget] at hj
-  | some e =>
-    simp only [hget, Option.map_some, Option.some.injEq] at hj
-    refine ⟨e, List.mem_of_getElem? hget, ?_, ?_⟩
-    · rw [← hj]; split <;> rfl
-    · intro hd; rw [← hj]; split
-      · rfl
-      · exact hd
 
 theorem disabledNames_disable {env : List Entry} {mi : Nat} {e : Entry} (hmi : env[mi]? = some e) (x : String) :
     x ∈ disabledNames (disable env mi) ↔ x = e.m.name ∨ x ∈ disabledNames env := by
